@@ -811,6 +811,14 @@ func vfDiff(a, b any, path string) string {
 	fb, ib, ub, kb := vfNum(b)
 	if ka != 0 || kb != 0 {
 		same := ka == kb && ia == ib && ua == ub && (fa == fb || (math.IsNaN(fa) && math.IsNaN(fb)))
+		// The YAML encoder writes a float without fraction like an integer
+		// ("0." comes back as "0"); a number keeps its value, which is what
+		// "preserved" can mean for it.
+		if ka == 1 && kb == 3 {
+			same = fb == math.Trunc(fb) && math.Abs(fb) < 1<<53 && int64(fb) == ia
+		} else if ka == 3 && kb == 1 {
+			same = fa == math.Trunc(fa) && math.Abs(fa) < 1<<53 && int64(fa) == ib
+		}
 		if !same {
 			return fmt.Sprintf("%s: %s vs %s", path, vfShow(a), vfShow(b))
 		}
